@@ -450,7 +450,7 @@ where
         let mut k = self.probs.len() - 1;
         for (i, &p) in self.probs.iter().enumerate() {
             cum += p;
-            if r <= cum {
+            if r < cum {
                 k = i;
                 break;
             }
